@@ -36,7 +36,11 @@ Inductive case :=
 | KQuery (srcs : list srcspec) (f : option flt) (p : posspec) (offs : Z) (limit : nat) (res : qres)
 (* a request over n matching partitions of which the journal of the one with index `failed` (if < n) cannot be opened;
    refused: the request ended with an error *)
-| KOpen (n failed : nat) (refused : bool).
+| KOpen (n failed : nat) (refused : bool)
+(* a request over n matching partitions of which the one with index `victim` is removed from the tag index while the
+   visit is in progress (before the visit reaches it); opened: the indices of the partitions the cursor was built over,
+   ascending (the visit order is the index's map order); refused: the request ended with an error *)
+| KRemoved (n victim : nat) (opened : list nat) (refused : bool).
 
 Definition ev_eqb (a b : ev) : bool := (fst a =? fst b) && Nat.eqb (snd a) (snd b).
 Definition item_eqb (a b : item) : bool := ev_eqb (fst a) (fst b) && Nat.eqb (snd a) (snd b).
@@ -81,4 +85,9 @@ Definition check (c : case) : bool :=
   | KQuery srcs f p offs limit res => qres_eqb (model_query srcs f p offs limit) res
   | KOpen n failed refused =>
       Bool.eqb (match get_journals_o (fun i => negb (Nat.eqb i failed)) merge_limit (seq 0 n) with None => true | Some _ => false end) refused
+  | KRemoved n victim opened refused =>
+      match get_journals_r (fun i => Nat.eqb i victim) (fun _ => true) merge_limit (seq 0 n) with
+      | None => refused
+      | Some l => negb refused && list_eqb Nat.eqb l opened
+      end
   end.
